@@ -77,6 +77,23 @@ def viaOf (entry : Str) : Option Str :=
   else if pkg.contains '/' || pkg.contains '\\' then none
   else some (sanitize pkg)
 
+/-- the label of a find-links wheel written as `../…/wheeldir/file.whl` relative to the lock file's package: package
+and target (since the D50 repair the directories between the parent steps and the wheel directory stay in) -/
+def whlLabel (lockPackage url : Str) : Str × Str :=
+  let parents := countSub "../".toList url
+  let dirParts := splitChar '/' lockPackage
+  let split := (splitChar '/' url).filter (fun part => part ≠ "..".toList ∧ part ≠ ".".toList)
+  (joinSlash (dirParts.take (dirParts.length - parents) ++ split.take (split.length - 2)),
+   (split.drop (split.length - 2)).headD [] ++ '/' :: (split.getLast?.getD []))
+
+/-- the reading before the D50 repair: what stands between the parent steps and the wheel directory is dropped -/
+def whlLabelOld (lockPackage url : Str) : Str × Str :=
+  let parents := countSub "../".toList url
+  let dirParts := splitChar '/' lockPackage
+  let split := splitChar '/' url
+  (joinSlash (dirParts.take (dirParts.length - parents)),
+   (split.drop (split.length - 2)).headD [] ++ '/' :: (split.getLast?.getD []))
+
 /-- `parse_constraint` -/
 def parseConstraint (data : List Str) (lock : LabelParts) (wheelDirs : List Str) : Except Fail Entry :=
   if data.length < 3 then .error .tooShort
@@ -98,13 +115,9 @@ def parseConstraint (data : List Str) (lock : LabelParts) (wheelDirs : List Str)
         .ok { package := package, version := version, sha256 := sha, via := via, loc := .url url }
       else if !wheelDirs.isEmpty && startsAny wheelDirs url then
         if startsAny ["..".toList, "./../".toList] url then
-          let parents := countSub "../".toList url
-          let dirParts := splitChar '/' lock.package
-          let split := (splitChar '/' url).filter (fun part => part ≠ "..".toList ∧ part ≠ ".".toList)
-          let newPackage := joinSlash (dirParts.take (dirParts.length - parents) ++ split.take (split.length - 2))
-          let wheel := (split.drop (split.length - 2)).headD [] ++ '/' :: (split.getLast?.getD [])
+          let lab := whlLabel lock.package url
           .ok { package := package, version := version, sha256 := sha, via := via,
-                loc := .whl (lock.repository ++ "//".toList ++ newPackage ++ ':' :: wheel) }
+                loc := .whl (lock.repository ++ "//".toList ++ lab.1 ++ ':' :: lab.2) }
         else
           .ok { package := package, version := version, sha256 := sha, via := via,
                 loc := .whl (lock.repository ++ "//".toList ++ lock.package ++ ':' :: url) }
